@@ -25,7 +25,7 @@ From CJ Require Import Base Dbl Heap Forest ForestLemmas CoreSpec CoreDefs CoreR
   CoreRefineDelete CoreRefineReplace CoreRefineMore CoreRefineFrame CoreRefineHistory CoreRefineObject
   CoreRefineByKey CoreRefineAddObject CoreRefineHistoryObj CoreRefineHistoryObjEx CoreRefineReplaceKey
   CoreRefineReplaceKeyAbs CoreRefineCreate CoreRefineSet CoreRefineRef CoreRefineArray CoreRefineLinks
-  CoreLedgerGen CoreHistoryAllSteps CoreHistoryAllArr CoreHistoryAllArrStep CoreHistoryAll CoreHistoryAllQ
+  CoreLedgerGen CoreHistoryAllSteps CoreHistoryAllArr CoreHistoryAllArrStep CoreHistoryAllNull CoreHistoryAll CoreHistoryAllQ
   CoreHistoryAllRefuse CoreHistoryAllEx CoreRefineDupBase CoreRefineDupTree CoreRefineDupNode CoreRefineDupForest
   CoreLedgerAll CoreLedgerDup CoreHistoryAllIter.
 From CJ.gen Require Import Constants.
@@ -411,6 +411,23 @@ Theorem C06_refused_state_replace_in_object : forall S ob n r cs,
   r = None \/ n = None -> spec_step3 S (OReplaceItemInObject ob n r cs) = (S, R (RBool false)).
 Proof. exact refused_replace_in_object. Qed.
 
+(** further refusals: a NULL array for detach / insert / replace / delete by index, a negative or
+    too large index or a NULL replacement for replace / delete by index, a NULL object or name for
+    the by-key lookup / detach / delete ([refused2]): the failure value, heap and state unchanged *)
+Theorem C06_refused_more : forall S o, refused2 S o -> Step (run_op2 nv o) S (s2 S o).1 (s2 S o).2.
+Proof. exact Step_refused2. Qed.
+Print Assumptions C06_refused_more.
+Theorem C06_refused_more_state : forall h S o, Abs3 h S -> refused2 S o -> (s2 S o).1 = S.
+Proof. exact refused2_unchanged. Qed.
+(** cJSON_ReplaceItemInObject(NULL, name, replacement): the C code gives the replacement its new key
+    (a copy of the name; the old owned key is released) BEFORE it finds nothing to replace: false,
+    every container unchanged, the detached replacement re-keyed *)
+Theorem C06_refused_replace_in_null_object : forall S nb r cs,
+  is_Some (find_tree r (a_forest S)) -> name_ok S (Some nb) ->
+  Step (replace_item_in_object nv None (Some nb) (Some r) cs) S (spec_rekey_only S nb r) false.
+Proof. exact Step_replace_null_object. Qed.
+Print Assumptions C06_refused_replace_in_null_object.
+
 (** ------------------------------------------------------------------ 4. queries *)
 
 (** size = length of the children list; index k = the k-th child, NULL outside *)
@@ -501,8 +518,9 @@ Print Assumptions C06_links_duplicated.
 
 (** ------------------------------------------------------------------ 6. non-vacuity *)
 
-(** a concrete 28-call history (arrays, objects with owned and constant keys, the helpers, a
-    reference, a refused self-insertion, both lookups, replace by key, the setters, queries) is
+(** a concrete 31-call history (arrays, objects with owned and constant keys, the helpers, a
+    reference, a refused self-insertion, both lookups, replace by key, the setters, queries,
+    out-of-range / negative indices, a NULL object) is
     accepted by the checker … *)
 Theorem C06_nonvacuous_accepted : pre_ok_all3b S0 ex6 = true.
 Proof. exact ex6_accepted. Qed.
@@ -513,7 +531,7 @@ Theorem C06_nonvacuous_results :
    R (RPtr (Some 6)); R (RBool true); R (RBool false); R (RBool true); R (RPtr (Some 9)); R (RPtr (Some 11));
    R (RPtr (Some 13)); R (RBool true); R (RBool true); R (RPtr (Some 4)); R (RPtr (Some 9)); R (RPtr (Some 15));
    R (RBool true); RDbl (dbl_of_int 9); R (RInt 513); R (RPtr (Some 7)); R (RBool true); RDbl (dbl_of_int 9);
-   R (RInt 3); R (RPtr (Some 14)); R (RPtr None); R RUnit]%positive.
+   R (RInt 3); R (RPtr (Some 14)); R (RPtr None); R RUnit; R (RBool false); R (RPtr None); R RUnit]%positive.
 Proof. exact ex6_results. Qed.
 (** … and the theorem applies to it *)
 Theorem C06_nonvacuous :
